@@ -44,7 +44,8 @@ CHECKS = {
             "environment choice: now / after the other's / after T3 / never, two unsolicited primaries, optionally a reconnect first, counter "
             "at 0 and at the 2^32 wrap) is run for every schedule with <= K delays and <= E non-default peer answers; each execution is checked: "
             "distinct system bytes, every caller gets exactly its own reply or None iff none arrived in time, unsolicited primaries delivered "
-            "once, serially, in order.",
+            "once, serially, in order - including primaries of the peer that reuse the system bytes of this side's finished (answered or "
+            "timed-out) requests.",
             "A source line of the listed racy region is the atom of interleaving; bounded by K and E (levels completed are in the evidence).",
             "DESIGN.md 3/C06"),
     "C07": ("model_checking", "vrt+hbfs", "explicit-state history BFS on real GEM handlers with trace invariants",
@@ -73,24 +74,26 @@ CHECKS = {
             "and probe time-out up to the exhaustive depth, then BFS over canonical states, runs on a fresh real handler in COMMUNICATING; "
             "state, S1F16/S1F18 acknowledge codes, emitted S6F11 CEIDs and SVID 1002 are compared with the E30 reference table after every event. "
             "Six pairs (S1F15/S1F17 on the dispatcher thread x an operator switch on an application thread) are explored under every schedule with "
-            "<= 1 (2) delays at line granularity of the state-machine engine: state, acknowledge code and operator outcome must be those of one "
+            "<= 1 (2) delays at line granularity of the state-machine engine: state, acknowledge code, operator outcome and the multiset of reported collection events must be those of one "
             "of the two serial orders.",
             "Attempt-online failure may land in HOST or EQUIPMENT OFF-LINE; default schedule; quick tier drops the events-off x non-answering-host configurations.",
             "DESIGN.md 3/C11"),
-    "C12": ("model_checking", "vrt+hbfs", "explicit-state history BFS with a reference table model and per-state probes",
+    "C12": ("model_checking", "vrt+hbfs", "explicit-state history BFS with a reference table model and per-state probes + delay-bounded schedule exploration of request vs trigger",
             "Every history over the S2F33/S2F35/S2F37 request alphabet (define, delete-one, delete-all, link, unlink, duplicates, unknown ids, "
             "partially bad requests) and variable updates is run on a fresh real equipment handler; after every step the public tables are "
             "compared with the reference (refused => unchanged, accepted => exact E5 effect), every link must point to a defined report, and "
             "S6F15 plus a trigger for every CEID of the domain must yield well-formed S6F16/S6F11 with exactly the linked reports in link "
-            "order and current values (decoded by the reference codec).",
+            "order and current values (decoded by the reference codec). Seven configuration requests (dispatcher thread) are raced against "
+            "trigger_collection_events([1, 2]) (application thread) under every schedule with <= 2 (3) delays at line granularity of the "
+            "capability: each event at most once, reports = configuration before or after, untouched events exactly once, no thread dies.",
             "Requests E5 leaves ambiguous are held to the integrity and transactional clauses only; small id domains (2 reports, 3 variables, 3 events).",
             "DESIGN.md 3/C12"),
     "C13": ("model_checking", "vrt+hbfs", "explicit-state history BFS with a plain-dict reference model and 49 queries per state",
-            "Every history over S2F15 (in-range, boundary, out-of-range, multi-constant, unknown, repeated), S5F3, set/clear alarm and value "
+            "Every history over S2F15 (in-range, boundary, out-of-range, zero limits at either end, multi-constant, unknown, repeated), S5F3, set/clear alarm (S5F2 answered or lost) and value "
             "updates runs on a fresh real equipment handler; after every step S1F3/S1F11/S2F13/S2F29/S5F5/S5F7 with known, unknown, repeated, "
             "numeric and text id lists are sent and each reply is decoded by the reference codec and compared item by item (order, values, "
             "empty item for unknown ids, alarm set bit); S2F15 must be all-or-nothing and within limits; S5F1 exactly on changes of enabled alarms.",
-            "Clock and list-valued built-in SVs excluded from value comparison; unknown ALIDs in S5F5 not in the alphabet.", "DESIGN.md 3/C13"),
+            "Clock excluded from value comparison; unknown ALIDs in S5F5 not in the alphabet; canonical state = every plain attribute of the alarm and constant objects.", "DESIGN.md 3/C13"),
     "C15": ("exploration", "enum", "bounded-exhaustive enumeration of items and of token strings against a reference SML recogniser",
             "Round trip Item.from_sml(item.to_sml()) over the C14 leaf families, all 256 single bytes and every string up to length 3 (4 thorough) "
             "over an 18-character awkward alphabet for A and J, float exponent sweeps and all list trees to the bound; every token string up to "
@@ -146,7 +149,8 @@ CHECKS = {
             "connection must select and deliver its first message; any step that does not complete in virtual time is a deadlock/livelock verdict of "
             "the runtime. Level 2: the real TcpServerConnection/TcpClientConnection run over a virtual kernel; six enable/disable/connect/close/Separate.req "
             "scripts are explored under every schedule with <= K delays (every line of tcp_*connection.py is a scheduling point): enable()/disable() "
-            "return, no socket is left open, a later enable() works.",
+            "return, no socket is left open, a later enable() works. Four level-1 scenarios are also explored with <= 1 delay at every line of "
+            "ProtocolDispatcher and of the protocol's connect/disconnect handlers.",
             "The kernel is a model (mc/vnet.py); hangs are detected up to the step and virtual-time horizons; spin-waits via repeated backward jumps.",
             "DESIGN.md 3/C09"),
     "C10": ("fault_enumeration", "vrt+explore", "exhaustive enumeration of environment answers (short write / would-block / broken pipe / not writable) up to F deviations",
@@ -154,7 +158,9 @@ CHECKS = {
             "every assignment of answers with <= F deviations from 'everything accepted' is executed for message sizes 1 byte .. 2 MiB+5 and 1-2 "
             "sends; the bytes the peer received must parse as the messages in order, complete where success was reported, a prefix where failure was "
             "(decided by backtracking over prefix lengths), and the call must return a bool. A further answer - one byte accepted while the peer "
-            "half-closes - is explored together with one scheduling delay (the receiver thread closes the socket under the sender).",
+            "half-closes - is explored together with one scheduling delay (the receiver thread closes the socket under the sender). "
+            "Reconnect scenario: after any outcome of the first send the peer drops the connection and comes back; the next send over the new "
+            "connection of the same object is judged on its own (nothing of the earlier message may appear).",
             "Kernel answers are a model; F = 2 quick / 3 thorough deviations per execution.", "DESIGN.md 3/C10"),
     "C17": ("model_checking", "vrt+explore", "stateless delay- and cut-bounded exploration of two real SecsIProtocol endpoints on a virtual line + exhaustive corruption positions",
             "Two real SecsIProtocol objects (host, equipment) joined by an in-memory line; a message of 1-3 blocks is sent, answered by the other "
